@@ -398,13 +398,14 @@ Proof.
   do 4 eexists. split; [reflexivity|]. rewrite Hgen. reflexivity.
 Qed.
 
-(** trait: the impl block is [impl<EntraitT: .., params> .. where EntraitT: b1 + .. + bn, ..] *)
+(** trait: the impl block is [impl<'lifetimes.., EntraitT: .., params> .. where EntraitT: b1 + .. + bn, ..]: the first
+    generic parameter that is not a lifetime is the application's *)
 Lemma c19_trait_params v attr h t items :
   expand_items v attr (InTrait h t) = Ok items ->
   exists a0 tr ds im rest wrest,
     parse_trait_attr attr = Ok a0 /\
     parts (InTrait h t) items = Some (GTrait tr ds im) /\
-    p_items (g_params (i_gen im)) = impl_t_param false :: rest /\
+    filter nonlife (p_items (g_params (i_gen im))) = impl_t_param false :: rest /\
     g_where (i_gen im) =
       Some (p_of_list (mk_pred (impl_t_bounds (eff_trait_attr v a0) (trait_contains_async (t_items t)) (t_name t) (trait_tg t)) :: wrest)).
 Proof.
@@ -412,7 +413,8 @@ Proof.
   match goal with |- context [[ITrait ?tr] ++ deleg ++ [IImpl ?im]] =>
     destruct (parts_trait h t tr deleg im (delegation_trait_defs_shape _ _ _ _ _ _ Hd)) as (ds & Hp & _)
   end.
-  do 6 eexists. split; [exact Ha|]. split; [exact Hp|]. split; reflexivity.
+  do 6 eexists. split; [exact Ha|]. split; [exact Hp|]. split; [|reflexivity].
+  cbn [i_gen g_params p_items p_of_list]. apply filter_nonlife_trait_impl_params.
 Qed.
 
 (** ** the view *)
@@ -438,7 +440,7 @@ Proof.
       cbn [andb] in Hc. apply negb_false_iff in Hc. cbn [decided v_app v_det v_holds]. auto.
   - destruct (c19_trait_params _ _ _ _ _ H) as (a0 & tr & ds & im & rest & wrest & Ha & Hp & Hg & Hw).
     unfold view_C19, good, trait_attr_of. cbn [x_input x_attr x_variant]. rewrite Hp, Ha.
-    fold (eff_trait_attr v a0). unfold first_param_toks, first_where_toks. rewrite Hg, Hw.
+    fold (eff_trait_attr v a0). unfold app_param_toks, first_where_toks. fold nonlife. rewrite Hg, Hw.
     cbn [p_items p_of_list wp_toks mk_pred decided v_app v_det v_holds]. intros _. split; [reflexivity|].
     destruct (c19_impl_t false) as [_ P2]. rewrite P2. cbn [andb].
     exact (c19_trait_ok (eff_trait_attr v a0) _ (t_name t) (trait_tg t)).
